@@ -239,7 +239,8 @@ def validate(_, mapfiles, expand, version):
     click.echo(
         f"{len(all_mapfiles)} file(s) validated ({validation_count} successfully)"
     )
-    sys.exit(errors)
+    # exit statuses are limited to 0-255 (256 errors would otherwise be reported as 0)
+    sys.exit(min(errors, 255))
 
 
 @main.command(short_help="Export a Mapfile Schema")
